@@ -31,6 +31,7 @@ REQUIRED_THEOREMS = [
     "initial_state_untouched", "runHeap_refines", "runHeapAt_refines", "missing_copy_modifies_initial",
     "runSpec_whole_range_exact", "runSpec_observation_independent", "runSpec_any_range", "empty_range",
     "c07_statement_on_heap", "c07_any_range_on_heap",
+    "autonomous_state_any_arithmetic", "autonomous_bit_identical_of_same_steps", "float_autonomous_state",
 ]
 MIN_LEGS = {"heap": 100}
 RULE = ("groups of runs sharing (dt, t_start, t_end, equation, solver, backend) and differing in the tracker "
@@ -46,7 +47,9 @@ RULE = ("groups of runs sharing (dt, t_start, t_end, equation, solver, backend) 
         "tracker-free reference run of its group) at least one tracker call happens")
 ASSUMPTIONS = [
     "theorems are about exact field arithmetic; IEEE rounding enters only through round_stable / "
-    "steps_stable_under_relative_error and through the bit-exact Float replay of the same model definitions",
+    "steps_stable_under_relative_error, through the bit-exact Float replay of the same model definitions, and through "
+    "autonomous_state_any_arithmetic / float_autonomous_state (law-free arithmetic: state of an autonomous equation = "
+    "steps-fold iterate, bit-identical for equal step counts - holds for the Float instantiation itself)",
     "GeometricInterrupts answers (libm log/pow) are replayed as an oracle schedule in Float mode and whenever the "
     "exact lattice point differs from the float answer; the theorems hold for every oracle",
     "the simulated state is one number per cell (u'=1, u'=t, u'=a*u, u'=a*u+t; all cells alike) plus the stepper's "
